@@ -224,6 +224,58 @@ def runs_suite(ctx: Ctx, n: int, modes: List[str]) -> None:
                 ctx.disagree("syncRun", {"spec": spec}, {"begun": order, "returned": rr.error is None}, o)
 
 
+def join_suite(ctx: Ctx, n: int, modes: List[str]) -> None:
+    """A join in the middle of the DAG: the consumer of the join computes features over both sources and over one source only,
+    and further groups run on top of it - the data of the joined object must survive until its last consumer has run."""
+    lean_reqs = []
+    metas = []
+    for k in range(n):
+        spec = S.gen_join_dag_spec(ctx.rng)
+        try:
+            sess = S.prepare_link(spec, hooks={"before_calc": _delay_hook})
+        except Exception as e:
+            ctx.tag("join_rejected_at_prepare", type(e).__name__)
+            continue
+        exp = S.export_plan(sess)
+        lp = S.lean_plan(exp)
+        view = {"groups": S.link_groups(spec)}
+        for mode in modes:
+            if mode == "mp" and ctx.rng.random() > (0.2 if ctx.quick else 0.5):
+                continue
+            DELAYS.clear()
+            if mode != "sync":
+                for g in view["groups"] + spec["sources"]:
+                    DELAYS[g["name"]] = ctx.rng.choice([0, 0, 0.002, 0.01, 0.02])
+            rr = S.run_session(sess, mode, timeout=60)
+            obs = S.obs_of(exp, rr.events)
+            case = {"spec": spec, "mode": mode, "obs": obs}
+            ctx.case("join_runs", {"spec": spec, "mode": mode, "order": [i for k_, i in obs if k_ == "b"]}, bool(spec["tops"]) or len(spec["consumer"]["features"]) > 1,
+                     mode=mode, outcome="error" if rr.error else "ok", tops=len(spec["tops"]), partial_right=S.jd_partial_right(spec))  # fmt: skip
+            known = None
+            if S.jd_top_on_right_only(spec):
+                known = "join-consumer-right-only-feature-consumed-later"
+            elif mode == "mp" and S.jd_partial_right(spec):
+                known = "multiprocessing-join-consumer-with-right-only-feature"
+            elif mode == "mp" and any(st["kind"] == "join" and "PythonDictFramework" in (st["left"], st["right"]) for st in exp["steps"]):
+                known = "multiprocessing-join-on-python-dict"
+            elif mode == "mp" and any(st["kind"] == "tfs" and st["from"] != "PyArrowTable" for st in exp["steps"]):
+                known = "multiprocessing-transform-step-from-non-arrow-producer"
+            elif mode == "mp" and S.mp_unuploaded_tfs_source(exp):
+                known = "multiprocessing-transform-source-not-uploaded"
+            if known and (rr.error or rr.timed_out):
+                ctx.violation("join_runs", case, f"run of a join DAG failed in mode {mode}: {(rr.error or 'timeout')[-160:]}", (rr.error or "timeout")[-300:], "return", finding_class=known)
+                continue
+            analyse_run(ctx, "join_runs", view, exp, mode, rr, case)
+            if not rr.error and not rr.timed_out:
+                lean_reqs.append({"op": "C01.accepts", "steps": lp["steps"], "obs": obs})
+                metas.append((spec, mode))
+    DELAYS.clear()
+    outs = ctx.lean.batch(lean_reqs)
+    for rq, (spec, mode), o in zip(lean_reqs, metas, outs):
+        if not o.get("ok") or not o["state"]["returned"]:
+            ctx.disagree("join_accepts", {"spec": spec, "mode": mode, "obs": rq["obs"]}, "observed trace of a run that returned", o)
+
+
 def rq_obs(rr: S.RunResult, exp: Dict[str, Any]) -> List[List[Any]]:
     return S.obs_of(exp, rr.events)
 
@@ -256,13 +308,14 @@ def run(ctx: Ctx) -> None:
     ctx.extra["rule"] = (
         "gates: every (required, outs, finished, running) over a 4-uuid universe on a real ExecutionOrchestrator (exhaustive); "
         "runs: seeded request DAGs (1-10 derived features over 1-3 generated groups + one root group, diamonds/fan-in/fan-out, intra-group levels, "
-        "option variants) prepared with the real planner, exported, checked by the Lean plan predicates, executed in SYNC/THREADING/MULTIPROCESSING "
+        "option variants; and joins in the middle of the DAG: two sources, a consumer with features over both / one of them, groups on top) prepared with the real planner, exported, checked by the Lean plan predicates, executed in SYNC/THREADING/MULTIPROCESSING "
         "with seeded delays; the observed step event log must be accepted by the Lean transition system and satisfy the independent oracle; "
         "non-trivial = >=2 steps open at once or an intra-group level split"
     )
     gates_suite(ctx)
     witness_suite(ctx)
     runs_suite(ctx, ctx.budget(60, 1500), ["sync", "thread", "mp"])
+    join_suite(ctx, ctx.budget(30, 600), ["sync", "thread", "mp"])
     S.stop_flight_server()
 
 
@@ -270,6 +323,7 @@ def search(ctx: Ctx, broken: List[str]) -> None:
     gates_suite(ctx)
     witness_suite(ctx)
     runs_suite(ctx, 200, ["sync", "thread", "mp"])
+    join_suite(ctx, 100, ["sync", "thread", "mp"])
     S.stop_flight_server()
 
 
